@@ -434,6 +434,77 @@ def build(term, rng=None) -> Built:
     raise Unsupported(f'type term {k}')
 
 
+def verify(term, py):
+    """typing caches alias objects by *equality* of their arguments, and Union / Literal equality ignores order:
+    List[Union[str, int]] may come back as an earlier List[Union[int, str]].  Check that the object built has
+    the member order of the term; raises Unsupported otherwise."""
+    k = term[0]
+    origin = t.get_origin(py)
+    args = t.get_args(py)
+    if k == 'union':
+        if origin not in (t.Union, pytypes.UnionType) or len(args) != len(term[1]):
+            raise Unsupported('union shape')
+        for m, a in zip(term[1], args):
+            verify(m, a)
+    elif k == 'literal':
+        if origin is not t.Literal or len(args) != len(term[1]) or any(type(a) is not type(b) or a != b for a, b in zip(args, term[1])):
+            raise Unsupported('literal order')
+    elif k == 'scalar':
+        if py is not SCALARS[term[1]][0]:
+            raise Unsupported('scalar')
+    elif k == 'none':
+        if py not in (None, type(None)):
+            raise Unsupported('none')
+    elif k == 'seq':
+        if not args:
+            raise Unsupported('seq args')
+        verify(term[2], args[0])
+    elif k == 'tuple':
+        if isinstance(py, tuple):
+            items = py
+        else:
+            items = () if args == ((),) else args
+        if len(items) != len(term[1]):
+            raise Unsupported('tuple len')
+        for m, a in zip(term[1], items):
+            verify(m, a)
+    elif k == 'dict':
+        if len(args) != 2:
+            raise Unsupported('dict args')
+        verify(term[1], args[0])
+        verify(term[2], args[1])
+    elif k == 'struct':
+        for (n, m) in term[1]:
+            verify(m, py[n])
+    elif k == 'cond':
+        if origin is not t.Annotated:
+            raise Unsupported('annotated')
+        verify(term[1], args[0])
+    elif k == 'tagged':
+        if origin is not t.Annotated:
+            raise Unsupported('annotated')
+        inner = t.get_args(args[0])
+        if len(inner) != len(term[3]):
+            raise Unsupported('tagged members')
+        for (tv, vt), a in zip(term[3], inner):
+            verify(vt, a)
+    elif k == 'class':
+        if py is not term[1].get('_cls'):
+            raise Unsupported('class identity')
+        ann = py.__dict__.get('__annotations__', {})
+        for f in term[1]['fields']:
+            if not f.get('kw_marker'):
+                verify(f['ty'], ann[f['name']])
+
+
+def clear_typing_caches():
+    for f in getattr(t, '_cleanups', []):
+        try:
+            f()
+        except Exception:
+            pass
+
+
 def fresh_name(prefix):
     return f'{prefix}{next(_counter)}'
 
